@@ -617,9 +617,9 @@ def subchecks(tier):
         Sub("forms", gen=gen_forms, shards=(8, 16)),
         Sub("wronglen", gen=gen_wronglen, shards=(8, 16)),
         Sub("options", gen=gen_options, shards=(2, 4)),
-        Sub("form_values", strategy=s_form(), n=(400, 10000), shards=(6, 16)),
-        Sub("unit", strategy=s_unit(), n=(400, 8000), shards=(4, 16)),
+        Sub("form_values", strategy=s_form(), n=(800, 10000), shards=(8, 16)),
+        Sub("unit", strategy=s_unit(), n=(800, 8000), shards=(8, 16)),
         Sub("scalartypes", gen=gen_scalartypes, shards=(2, 4)),
-        Sub("scalartype", strategy=s_scalartype(), n=(200, 4000), shards=(2, 8)),
-        Sub("packed", strategy=s_packed(), n=(200, 3000), shards=(2, 8)),
+        Sub("scalartype", strategy=s_scalartype(), n=(500, 4000), shards=(4, 8)),
+        Sub("packed", strategy=s_packed(), n=(500, 3000), shards=(4, 8)),
     ]
